@@ -174,6 +174,22 @@ func Has(p *walk.Path, at int, n Need) (walk.Call, bool) {
 	return walk.Call{}, false
 }
 
+// HasLast is Has, but returns the last call that establishes the fact (the one nearest to the sink).
+func HasLast(p *walk.Path, at int, n Need) (walk.Call, bool) {
+	var last walk.Call
+	found := false
+	calls := p.Find(n.M, at)
+	for i := len(calls) - 1; i >= 0; i-- {
+		c := calls[i]
+		one := Need{M: func(_ *walk.Path, k walk.Call) bool { return k.Idx == c.Idx }, Idx: n.Idx, Out: n.Out, Where: n.Where}
+		if got, ok := Has(p, at, one); ok {
+			last, found = got, true
+			break
+		}
+	}
+	return last, found
+}
+
 // ResultIs reports whether dv is result idx of call c on this path.
 func ResultIs(p *walk.Path, dv walk.DV, c walk.Call, idx int) bool {
 	return p.Key(dv) == p.ResultKey(c.DV(), idx)
